@@ -72,7 +72,7 @@ def _static_truth(world: World, table: ClassTable, rule: ClassInfo, atom: ast.AS
                     res = False
                 else:
                     assert owner is not None and value is not None
-                    vq = world.qualify(owner.module, value)
+                    vq = world.qualify(module_of(value), value)
                     res = vq is not None and table.find(vq) is k
             return res if isinstance(atom.ops[0], ast.Is) else not res
     return None
@@ -235,9 +235,40 @@ def _fn_paths(world, table, rule, fn: ast.FunctionDef, owner: ClassInfo | None, 
                 break
         if not feasible:
             continue
+        # `return super().<name>(left, right)` / `return self.<helper>(left, right)`: the outcome is the callee's
+        tail = _tail_callee(world, table, rule, fn, owner, name, path, env, ren, self_name)
+        if tail is not None:
+            callee_fn, callee_owner, callee_name = tail
+            for cfs, cpath, cenv, cfn in _fn_paths(world, table, rule, callee_fn, callee_owner, callee_name, depth + 1):
+                for inh in inherited:
+                    if not _contradictory(fs | inh | cfs):
+                        out.append((fs | inh | cfs, cpath, cenv, cfn))
+            continue
         for inh in inherited:
             out.append((fs | inh, path, env, fn))
     return out
+
+
+def _tail_callee(world, table, rule, fn, owner, name, path, env, ren, self_name):
+    if path.exit != 'return' or not isinstance(path.node, ast.Return) or not isinstance(path.node.value, ast.Call):
+        return None
+    call = path.node.value
+    f = call.func
+    if call.keywords or len(call.args) != 2 or not isinstance(f, ast.Attribute):
+        return None
+    if [subst(term(a, env), ren) for a in call.args] != [LEFT, RIGHT]:
+        return None
+    if isinstance(f.value, ast.Call) and isinstance(f.value.func, ast.Name) and f.value.func.id == 'super' and owner is not None:
+        idx = rule.mro.index(owner)
+        for k in rule.mro[idx + 1:]:
+            if isinstance(k.own.get(f.attr), ast.FunctionDef):
+                return k.own[f.attr], k, f.attr
+        return None
+    if isinstance(f.value, ast.Name) and f.value.id == self_name:
+        r = table.resolve(rule, f.attr)
+        if r is not None and isinstance(r.node, ast.FunctionDef) and len(r.node.args.args) == 3 and r.node is not fn:
+            return r.node, r.owner, f.attr
+    return None
 
 
 def combined_paths(world: World, table: ClassTable, rule: ClassInfo):
